@@ -3,7 +3,10 @@ use aldrin_core::{
     BusEvent, BusListenerFilter, BusListenerScope, BusListenerServiceFilter, ObjectId, ObjectUuid,
     ServiceId, ServiceUuid,
 };
+#[cfg(not(kani))]
 use std::collections::HashSet;
+#[cfg(kani)]
+use crate::verif_collections::HashSet;
 
 #[derive(Debug)]
 pub(crate) struct BusListener {
@@ -137,3 +140,7 @@ impl BusListener {
         }
     }
 }
+
+#[cfg(kani)]
+#[path = "/verif/harness/broker/bus_listener.rs"]
+pub(crate) mod verif;
